@@ -32,6 +32,21 @@ def params_snapshot(est):
     return tuple(sorted((k, snapshot(v)) for k, v in est.get_params().items()))
 
 
+def fitted_state(est):
+    """the attributes a fit leaves behind (trailing underscore): arrays and scalars by value, other objects by identity"""
+    out = []
+    for k, v in sorted(vars(est).items()):
+        if not k.endswith('_') or k.startswith('_'):
+            continue
+        if isinstance(v, np.ndarray):
+            out.append((k, ('nd', v.shape, str(v.dtype), v.tobytes())))
+        elif isinstance(v, (int, float, bool, str, type(None), np.generic)):
+            out.append((k, ('val', repr(v))))
+        else:
+            out.append((k, ('obj', id(v))))
+    return out
+
+
 class Tracker:
     def __init__(self, R, name):
         self.R, self.name = R, name
@@ -40,9 +55,16 @@ class Tracker:
         kwargs = kwargs or {}
         before_a = [snapshot(a) for a in args] + [snapshot(v) for v in kwargs.values()]
         before_p = params_snapshot(est)
+        query = method not in ('fit', 'set_params', 'set_threshold', 'calibrate_threshold')
+        before_s = fitted_state(est) if query else None
         with warnings.catch_warnings():
             warnings.simplefilter('ignore')
             out = getattr(est, method)(*args, **kwargs)
+        if query:
+            after_s = fitted_state(est)
+            if before_s != after_s:
+                changed = sorted(set(k for k, v in before_s) ^ set(k for k, v in after_s)) or sorted(k for (k, v), (k2, v2) in zip(before_s, after_s) if v != v2)
+                self.R.violation(f'{self.name}.{method}/changes-fitted-state', f'{self.name}.{method} (a query method) changed the fitted state: {changed[:4]}', case)
         after_a = [snapshot(a) for a in args] + [snapshot(v) for v in kwargs.values()]
         if before_a != after_a:
             which = [i for i, (x, y) in enumerate(zip(before_a, after_a)) if x != y]
@@ -304,6 +326,27 @@ def run(R, tier, seed, driver_ok):
                     warnings.simplefilter('ignore')
                     fresh = zoo.CLASSES[name](**{k_: v_ for k_, v_ in p_at_fit.items() if not (isinstance(v_, str) and v_ == 'deprecated')})
                     fresh.fit(*copy.deepcopy(ia))
+                # query methods on indicator input, also after the preprocessor parameter was replaced without a refit: no query
+                # changes the fitted state or what a later query answers
+                iq = rng.randint(0, len(X), size=(5, 2))
+                tq = rng.randint(0, len(X), size=(5, zoo.TUPLE_SIZE.get(name, 2)))
+                qcase = {'est': name, 'history': list(hist) + ['queries on indicators']}
+                try:
+                    d_before = T.call(est, 'pair_distance', (iq,), None, qcase)
+                    T.call(est, 'transform', (iq[:, 0],), None, qcase)
+                    est.set_params(preprocessor=np.ascontiguousarray(X[::-1]) * 1.25 + 0.5)
+                    d_mid = T.call(est, 'pair_distance', (iq,), None, qcase)
+                    if name in zoo.TUPLE_SIZE:
+                        T.call(est, 'predict', (tq,), None, qcase)
+                        T.call(est, 'decision_function', (tq,), None, qcase)
+                        T.call(est, 'score', (tq, np.array([1, -1, 1, -1, 1])) if name in zoo.PAIRS else (tq,), None, qcase)
+                    T.call(est, 'pair_score', (iq,), None, qcase)
+                    d_after = T.call(est, 'pair_distance', (iq,), None, qcase)
+                    if not np.array_equal(d_mid, d_after):
+                        R.violation(f'{name}/query-changes-later-answers', f'{name}: pair_distance on the same indicator pairs answers differently after intervening query methods (predict / score / …)', qcase)
+                    est.set_params(preprocessor=X)
+                except Exception as e:
+                    R.violation(f'{name}/indicator-queries-raise-{type(e).__name__}', f'{name}: query methods on indicator input raised {type(e).__name__}: {str(e)[:120]}', qcase)
                 probe_pts = rng.randn(4, X.shape[1]); probe_pairs = rng.randn(4, 2, X.shape[1])
                 try:
                     bad = same_obs(observables(fresh, probe_pts, probe_pairs, name), observables(est, probe_pts, probe_pairs, name), exact=False)
